@@ -635,8 +635,14 @@ class World:
         """another connection commits a change to n first: the writer's commit must conflict"""
         from ZODB.POSException import ConflictError
         m = self.m
-        if n not in m.committed or n not in m.dirty or n == 'root' or m.pending and False:
-            return
+        if n not in m.committed or n not in m.dirty or n == 'root':
+            # (any committed object this transaction has changed - also before a savepoint - will do)
+            cands = sorted(((m.dirty | m.pending) & set(m.committed)) - {'root'})
+            if not cands:
+                return
+            n = cands[self.steps % len(cands)]
+            if n in m.pending and n not in m.dirty:
+                self.labels.add('conflict-on-object-saved-by-savepoint')
         before_dirty = set(m.dirty)
         c2 = self.db.open(self.tm2)
         try:
@@ -699,6 +705,8 @@ class World:
             self.fail('close', 'allowed-inside-transaction', 'close() of a connection joined to a transaction did not raise')
             return
         self.tm.abort()
+        m.end()                 # (savepoints taken without any change die with the transaction)
+        self.sps = []
         self.conn.close()
         self.conn = self.db.open(self.tm)
         self.labels.add('reopen')
